@@ -83,6 +83,10 @@ type coalescer struct {
 	done      chan struct{}
 	closeOnce sync.Once
 	wg        sync.WaitGroup
+	// submitMu is held for reading by every submit from its shutdown pre-check
+	// until it has enqueued or given up. On shutdown the writer takes it for
+	// writing once, so no submit can enqueue after the final drain.
+	submitMu sync.RWMutex
 
 	maxBatch   int
 	errHandler CoalescingErrorHandler
@@ -126,6 +130,9 @@ func newCoalescer(dest string, nc *inet.Client, cfg coalescingConfig) *coalescer
 //   - errCoalescerClosed if the coalescer is shut down while the caller is
 //     waiting (or before the call began).
 func (c *coalescer) submit(ctx context.Context, msg *internalpb.RemoteMessage) error {
+	c.submitMu.RLock()
+	defer c.submitMu.RUnlock()
+
 	// Pre-check shutdown so a submit after close returns immediately rather
 	// than racing with a context that has no deadline.
 	select {
@@ -220,11 +227,18 @@ func (c *coalescer) run() {
 	for {
 		select {
 		case <-c.done:
-			// Drain anything still buffered and exit. Submit refuses new
-			// enqueues once done is closed, so the channel is a bounded
-			// set at this point.
+			// Drain everything still buffered and exit. Submits that passed
+			// the shutdown pre-check hold submitMu until they have enqueued
+			// or given up (done wakes the blocked ones), and later submits
+			// see done closed, so the channel is a bounded set once the lock
+			// has been taken. maxBatch bounds one flush, not what is pending.
+			c.submitMu.Lock()
 			drainReady()
-			flush()
+			c.submitMu.Unlock()
+			for len(batch) > 0 {
+				flush()
+				drainReady()
+			}
 			return
 		case m := <-c.in:
 			batch = append(batch, m)
